@@ -35,8 +35,8 @@ CLAIMED["C03"] = dict(
     technique="CBMC function contracts (dfcc, enforce + replace) on extracted C, SAT back end, full 2^16 / 2^32 domains",
     ref="6/C03")
 CLAIMED["C07"] = dict(
-    text="Proof: for Vec2/3/4 normalizeExc/normalize/normalizeNonNull and normalizedExc/normalized/normalizedNonNull, and Matrix22/33/44 inverse/invert/gjInverse/gjInvert with and without the singExc flag, dfcc-enforced contracts give the frame, 'throws only with the flag / exactly for zero length', and the documented exception kind; relational lemma units call the checked and the real unchecked function on the same symbolic input and prove the results identical slot for slot whenever the checked form returns, and that it throws only where the plain form returns the identity (Vec all dims, Matrix22, Matrix33 inverse/invert; Matrix44 inverse/invert modularly: gjInverse()/gjInverse(bool) enter through an assumed interface, the affine branch and the guard are the real code); the same relational lemma plus the documented exception type for all ten Frustum ...Exc / setExc pairs and for Vec3(Vec4, InfException) vs Vec3(Vec4); thorough tier: for Vec3(Vec4, InfException) the guard fires only when the exact quotient is within a factor four of max, never for |w| >= 1 or quotient < max/2, and a returned value is finite (IEEE).",
-    note="Mode ABS for these units: + - * / and sqrt are uninterpreted functions (identical operation sequences are identical results for ANY arithmetic, in particular IEEE); comparisons are real. Trusted: clang AST + cxx2c, cbmc, cvc5, minisat. Not covered: relational clause for the Gauss-Jordan copies themselves (solver memory; assumed in the modular 4x4 units), MatrixAlgo exc-flag functions, guard placement for the Frustum / checkForZeroScaleInRow guards.",
+    text="Proof: for Vec2/3/4 normalizeExc/normalize/normalizeNonNull and normalizedExc/normalized/normalizedNonNull, and Matrix22/33/44 inverse/invert/gjInverse/gjInvert with and without the singExc flag, dfcc-enforced contracts give the frame, 'throws only with the flag / exactly for zero length', and the documented exception kind; relational lemma units call the checked and the real unchecked function on the same symbolic input and prove the results identical slot for slot whenever the checked form returns, and that it throws only where the plain form returns the identity (Vec all dims, Matrix22, Matrix33 inverse/invert; Matrix44 inverse/invert modularly: gjInverse()/gjInverse(bool) enter through an assumed interface, the affine branch and the guard are the real code); the same relational lemma plus the documented exception type for all ten Frustum ...Exc / setExc pairs and for Vec3(Vec4, InfException) vs Vec3(Vec4); the matrix-decomposition functions with an exc flag (checkForZeroScaleInRow 2-D/3-D, extractAndRemoveScalingAndShear and removeScalingAndShear for Matrix33 and Matrix44; thorough tier: extractScaling, extractScalingAndShear, removeScalingAndShear, sansScalingAndShear for Matrix44): exc = true throws std::domain_error exactly when exc = false reports failure, exc = false never throws, identical results whenever the checked form returns; thorough tier: for Vec3(Vec4, InfException) the guard fires only when the exact quotient is within a factor four of max, never for |w| >= 1 or quotient < max/2, and a returned value is finite (IEEE).",
+    note="Mode ABS for these units: + - * / and sqrt are uninterpreted functions (identical operation sequences are identical results for ANY arithmetic, in particular IEEE); comparisons are real. Trusted: clang AST + cxx2c, cbmc, cvc5, minisat. Not covered: relational clause for the Gauss-Jordan copies themselves (solver memory; assumed in the modular 4x4 units), sansScaling / removeScaling / extractSHRT (exc threaded through extractSHRT: not built), guard placement for the Frustum / checkForZeroScaleInRow guards.",
     technique="CBMC contracts (dfcc) for frame/exception clauses + relational lemma harnesses over the two real functions with uninterpreted arithmetic, cvc5/SAT",
     ref="6/C07")
 
